@@ -148,8 +148,11 @@ CLAUSE_PATTERNS = [
 
 
 def norm(line):
-    line = line.replace("\t", "")
+    """Classification is insensitive to break hints and spacing: drop TAB (write_lines break hint), collapse
+    blanks, one blank after every comma, none after an opening parenthesis."""
+    line = line.replace("\t", " ")
     line = re.sub(r" +", " ", line).strip()
+    line = re.sub(r" ?, ?", ", ", line).strip()
     line = line.replace("( ", "(")
     return line
 
@@ -164,7 +167,7 @@ def ops_of(name, clause, lines):
         return []
     joined = "\n".join(lines)
     for text, ops in CLAUSE_PATTERNS:
-        if joined == text:
+        if joined == "\n".join(norm(l) for l in text.split("\n")):
             return list(ops)
     out = []
     for l in lines:
